@@ -45,6 +45,7 @@ EXC_TABLE = {
     "EOFError": ["Exception"],
     "IncompleteReadError": ["EOFError"],
     "LimitOverrunError": ["Exception"],
+    "InvalidStateError": ["Exception"],
     "QueueFull": ["Exception"],
     "QueueEmpty": ["Exception"],
     "ValidationError": ["Exception"],
